@@ -23,6 +23,11 @@
 #include <vf/hooks.hpp>
 #include <vf/dense.hpp>
 #include <omp.h>
+#include <unistd.h>
+#include <fcntl.h>
+#include <poll.h>
+#include <signal.h>
+#include <sys/wait.h>
 
 using namespace amgcl;
 using vf::J; using vf::Rng; using vf::Case; using vf::LD; using vf::LV;
@@ -236,7 +241,10 @@ static void sub_schur_blocks() {
             c.check(nmax(dense_of(P.system_matrix()) - s.K) == 0, "schur:system-matrix", "system_matrix() is not K");
             // documented adjustment of the pressure matrix; entrywise rounding bound (nu + 3) eps sum|terms|
             { LD Want = adjusted_pp(s, adjust, simplec), Got = dense_of(*rPm); LV d = kuu_dia_inv(s, simplec); LD Tabs = s.Kpu.cwiseAbs() * d.cwiseAbs().asDiagonal() * s.Kup.cwiseAbs(); bool ok = true; double worst = 0;
-              for (int i = 0; i < s.np; ++i) for (int j = 0; j < s.np; ++j) { long double tol = (s.nu + 3) * EPS * (fabsl(s.Kpp(i, j)) + Tabs(i, j)) + 1e-300L; long double e = fabsl(Got(i, j) - Want(i, j)); if (!(e <= tol)) { ok = false; worst = std::max(worst, (double)e); } }
+              for (int i = 0; i < s.np; ++i) for (int j = 0; j < s.np; ++j) { long double tol = (s.nu + 3) * EPS * (fabsl(s.Kpp(i, j)) + Tabs(i, j)) + 1e-300L; long double e = fabsl(Got(i, j) - Want(i, j));
+                  // adjust_p = 1 changes existing diagonal entries only: where K[p,p] stores no diagonal entry the unadjusted (absent) entry is accepted as well
+                  if (adjust == 1 && i == j && s.Kpp(i, i) == 0 && !s.stored[(size_t)s.ip[i] * n + s.ip[i]] && Got(i, i) == 0) continue;
+                  if (!(e <= tol)) { ok = false; worst = std::max(worst, (double)e); } }
               c.check(ok, "schur:adjust_p:" + std::to_string(adjust) + (simplec ? ":simplec" : ":diag"), "matrix given to the pressure solver differs from the documented C - [diag](B2 diag(A)^-1 B1)", J().n("worst_abs_err", worst).s("pp_block", s.cmode)); }
             // gather / scatter
             { LD x2u = dense_of(*ACC::x2u(P)), x2p = dense_of(*ACC::x2p(P)), u2x = dense_of(*ACC::u2x(P)), p2x = dense_of(*ACC::p2x(P)); bool ok = x2u.rows() == s.nu && x2p.rows() == s.np && u2x.cols() == s.nu && p2x.cols() == s.np;
@@ -319,6 +327,20 @@ template <int B, class CPRB> LD cpr_block_action(const CPRB &P, int n) {
     return M;
 }
 static uint64_t dig(const LD &M) { return vf::digest_ld(M); }
+// partial_update + action in a forked child (single-threaded jobs only): 0 same action, 1 different, 2 child died / hung
+template <class CPR> int partial_update_isolated(CPR &P, const Crs &C, bool ut, uint64_t want, int n, std::string &info) {
+    int fd[2]; if (pipe(fd)) { perror("pipe"); exit(3); } fflush(stdout); fflush(stderr);
+    pid_t pid = fork(); if (pid < 0) { perror("fork"); exit(3); }
+    if (pid == 0) { close(fd[0]); int e = open("/dev/null", O_WRONLY); if (e >= 0) { dup2(e, 2); close(e); }
+        uint64_t d = 0; try { P.partial_update(std::tie(C.n, C.ptr, C.col, C.val), ut); LD B2 = cpr_action(P, n); d = dig(B2); } catch (...) { d = 1; }
+        if (write(fd[1], &d, sizeof d) != (ssize_t)sizeof d) _exit(7); _exit(0); }
+    close(fd[1]); uint64_t d = 0; size_t have = 0; bool hung = false;
+    while (have < sizeof d) { pollfd pf; pf.fd = fd[0]; pf.events = POLLIN; pf.revents = 0; int pr = poll(&pf, 1, 300000); if (pr == 0) { hung = true; kill(pid, SIGKILL); break; } if (pr < 0) { if (errno == EINTR) continue; break; }
+        ssize_t k = read(fd[0], (char*)&d + have, sizeof d - have); if (k <= 0) break; have += k; }
+    close(fd[0]); int st = 0; waitpid(pid, &st, 0);
+    if (have < sizeof d) { info = hung ? "no return within the watchdog" : WIFSIGNALED(st) ? "child died with signal " + std::to_string(WTERMSIG(st)) : "child exited with " + std::to_string(WEXITSTATUS(st)); return 2; }
+    return d == want ? 0 : 1;
+}
 
 template <int Tag, template <class, class> class CPRT, class SP> void cpr_compose_check(Case &c, const std::string &name, const Res &R, const Crs &C, int active, bool drs, const std::vector<double> *weights, double eps_dd, double eps_ps) {
     typedef CPRT<ExactPrec<Tag>, SP> CPR; int n = R.n;
@@ -361,7 +383,11 @@ template <int Tag, template <class, class> class CPRT, class SP> void cpr_compos
         // exact pressure solve: P is the inverse of the pressure matrix (sanity of the recording preconditioner + library wiring)
         { long double kA = cond_inf(Ap); if (kA < 1e8L) c.check_le((double)nmax(Pd * Ap - LD::Identity(R.nb, R.nb)), (double)(8 * R.nb * EPS * kA), name + ":pprecond-sees-pressure-matrix", "the pressure preconditioner was not built for the pressure matrix"); }
         // partial update with the unchanged matrix leaves the action bitwise unchanged
-        for (int ut = 1; ut >= 0; --ut) { P.partial_update(std::tie(C.n, C.ptr, C.col, C.val), (bool)ut); LD B2 = cpr_action(P, n); c.check(dig(B2) == dig(B), name + (ut ? ":partial_update:with-transfer" : ":partial_update:without-transfer"), "partial_update with the unchanged matrix changed the action", J().n("max_diff", (double)nmax(B2 - B))); }
+        for (int ut = 1; ut >= 0; --ut) { std::string key = name + (ut ? ":partial_update:with-transfer" : ":partial_update:without-transfer");
+            if (omp_get_max_threads() == 1) { std::string info; int rc = partial_update_isolated(P, C, (bool)ut, dig(B), n, info);
+                c.check(rc != 2, key + ":crash", "partial_update with the unchanged matrix crashed: " + info, J().n("b", R.b).n("active_rows", active));
+                c.check(rc != 1, key, "partial_update with the unchanged matrix changed the action"); }
+            else { P.partial_update(std::tie(C.n, C.ptr, C.col, C.val), (bool)ut); LD B2 = cpr_action(P, n); c.check(dig(B2) == dig(B), key, "partial_update with the unchanged matrix changed the action", J().n("max_diff", (double)nmax(B2 - B))); } }
     } catch (const std::exception &e) { c.fail(name + ":exception", e.what()); }
 }
 
